@@ -48,6 +48,7 @@ class Generated:
         self.rules_applied = {}
         self.notwin = set()
         self.leaves = {}         # "<fn>/<let>" -> dict(expr, free, src, fn): float leaves lifted by R14
+        self.padded = []         # (fn name, contract params, real params, fnpath): R16-pad
 
     def add(self, text, kind, info=None):
         for ln in text.split("\n"):
@@ -56,6 +57,24 @@ class Generated:
 
     def text(self):
         return "\n".join(self.lines) + "\n"
+
+
+def _split_top(s):
+    """split an argument list on top-level commas"""
+    from .rustsrc import mask as _mask
+    m = _mask(s)
+    out, depth, start = [], 0, 0
+    for i, ch in enumerate(m):
+        if ch in "([{":
+            depth += 1
+        elif ch in ")]}":
+            depth -= 1
+        elif ch == "," and depth == 0:
+            out.append(s[start:i])
+            start = i + 1
+    if s[start:].strip():
+        out.append(s[start:])
+    return out
 
 
 def _read(path):
@@ -172,7 +191,15 @@ def build(unit, workdir):
                 rp = [ren.get(p, p) for p in rp]
                 rp = [p for p in rp if p not in set(cfg.get("drop_params", []))]
                 if not cfg.get("skip_sig_check") and tp != rp:
-                    raise Undecided("R16: parameters of %s changed: real %s vs contract %s" % (fnpath, rp, tp))
+                    # R16-pad: the real function LOST parameters the contract speaks about (rp is a proper subsequence of tp). The contract
+                    # keeps its signature (the lost parameter is simply unused by the body); call sites in this unit that pass the real,
+                    # shorter argument list get the missing arguments BY NAME (a caller that has no such local fails to compile -> undecided).
+                    it = iter(tp)
+                    if rp and len(rp) < len(tp) and all(any(x == y for y in it) for x in rp):
+                        g.padded.append((tname, tp, rp, fnpath))
+                        g.rules_applied["R16-pad"] = g.rules_applied.get("R16-pad", 0) + 1
+                    else:
+                        raise Undecided("R16: parameters of %s changed: real %s vs contract %s" % (fnpath, rp, tp))
                 g.rules_applied["R16"] = g.rules_applied.get("R16", 0) + 1
                 start = tmpl_sig_line
                 while start > 0 and g.lines[start - 1].strip().startswith("#["):
@@ -189,6 +216,49 @@ def build(unit, workdir):
                 g.add(ln, origin)
 
     process(_read(os.path.join(unit["dir"], "template.rs")), "template")
+
+    # R16-pad: pad the call sites (inside extracted bodies only) of functions that lost parameters
+    if g.padded:
+        from .rustsrc import mask as _mask
+        for (tname, tp, rp, fnpath) in g.padded:
+            real_self = [x for x in rp if x != "self"]
+            want = [x for x in tp if x != "self"]
+            for bpath, (first, last) in list(g.bodies.items()):
+                text = "\n".join(g.lines[first - 1:last])
+                pos, out, changed = 0, [], False
+                while True:
+                    m = _mask(text)
+                    mm = re.compile(r"(?:\.|::)\s*%s\s*\(" % re.escape(tname)).search(m, pos)
+                    if not mm:
+                        break
+                    op = mm.end() - 1
+                    cp = match_close(m, op)
+                    inner = m[op + 1:cp]
+                    # top-level argument count
+                    depth, n = 0, (1 if inner.strip() else 0)
+                    for ch in inner:
+                        if ch in "([{":
+                            depth += 1
+                        elif ch in ")]}":
+                            depth -= 1
+                        elif ch == "," and depth == 0:
+                            n += 1
+                    if inner.strip().endswith(","):
+                        n -= 1
+                    if n == len(real_self):
+                        args = [a.strip() for a in _split_top(text[op + 1:cp])]
+                        it2 = iter(args)
+                        newargs = [next(it2) if w in real_self else w for w in want]
+                        text = text[:op + 1] + ", ".join(newargs) + text[cp:]
+                        changed = True
+                    pos = mm.end()
+                if changed:
+                    newl = text.split("\n")
+                    # keep the line count stable (labels / regions are line-based): bodies are re-split on the same newlines
+                    if len(newl) == last - first + 1:
+                        g.lines[first - 1:last] = newl
+                    else:
+                        raise Undecided("R16-pad: call-site rewrite changed the line structure of %s" % bpath)
 
     # labels
     for i, ln in enumerate(g.lines, 1):
